@@ -50,6 +50,7 @@ type c18ConnSched struct {
 	Locked bool     `json:"locked"`
 	Labels []string `json:"labels"`
 	Torn   bool     `json:"torn"`
+	Hb     bool     `json:"hb,omitempty"` // writer 1 is the heartbeat goroutine (first tick after 4 s) instead of the handler
 }
 
 type c18Job struct {
@@ -542,7 +543,7 @@ func c18Conn(s *c18ConnSched) map[string]interface{} {
 	ctl.Hold = func(a *fed.Arrival) bool {
 		mu.Lock()
 		defer mu.Unlock()
-		return armed && a.Point == "W.lock"
+		return armed && s.Locked && a.Point == "W.lock"
 	}
 	rig, err := c18NewRig(ctl)
 	if err != nil {
@@ -619,9 +620,41 @@ func c18Conn(s *c18ConnSched) map[string]interface{} {
 	time.Sleep(5 * time.Millisecond) // the handler is back in its read
 	mu.Lock()
 	armed = true
-	gidW[gL], gidW[gH] = 0, 1
+	gidW[gL] = 0
+	if !s.Hb {
+		gidW[gH] = 1
+	}
 	mu.Unlock()
 	gids := []uint64{gL, gH}
+	if s.Hb {
+		// the heartbeat goroutine: the first goroutine other than Listen and the handler that
+		// reaches the write lock (repaired tree) or a connection Write (unchanged tree)
+		gids[1] = 0
+		deadline := time.Now().Add(7 * time.Second)
+		for gids[1] == 0 && time.Now().Before(deadline) {
+			if s.Locked {
+				for _, a := range ctl.Log() {
+					if a.Point == "W.lock" && a.Gid != gL && a.Gid != gH && ctl.Held(a.Gid) == "W.lock" {
+						gids[1] = a.Gid
+					}
+				}
+			}
+			mu.Lock()
+			for g := range pending {
+				if g != gL && g != gH {
+					gids[1] = g
+				}
+			}
+			mu.Unlock()
+			time.Sleep(2 * time.Millisecond)
+		}
+		if gids[1] == 0 {
+			return fail("harness", "no heartbeat write within 7 s")
+		}
+		mu.Lock()
+		gidW[gids[1]] = 1
+		mu.Unlock()
+	}
 	waitPending := func(gid uint64) bool {
 		deadline := time.Now().Add(T)
 		for time.Now().Before(deadline) {
@@ -674,7 +707,7 @@ func c18Conn(s *c18ConnSched) map[string]interface{} {
 		case "begin":
 			if w == 0 {
 				sub.SendData(map[string]interface{}{"tick": 7}, nil)
-			} else {
+			} else if !s.Hb {
 				client.Init()
 			}
 			if s.Locked {
